@@ -304,6 +304,15 @@ def execute(case: dict) -> dict:
                 ref.set_cookie(sc, url, clock.now)
                 jar.update_cookies_from_headers([set_cookie_header(sc)], URL(f"{url[0]}://{url[1]}{url[2]}"))
                 history.append((sc, url))
+            elif kind == "repeat":
+                # the very same Set-Cookie header again (same value, same absolute Expires), e.g. after a clear() or a reload
+                if not history:
+                    continue
+                sc0, url = history[-1]
+                sc = dict(sc0)
+                ref.set_cookie(sc, url, clock.now)
+                jar.update_cookies_from_headers([set_cookie_header(sc)], URL(f"{url[0]}://{url[1]}{url[2]}"))
+                history.append((sc, url))
             elif kind == "set_plain":
                 # the other way in: jar.update_cookies({name: value}, url) - a host-only cookie with the default path
                 _, name, url = op
@@ -427,6 +436,7 @@ def cases(draw, trailing_slash: bool = False):
         st.tuples(st.just("tick"), st.sampled_from([1, 5, 6, 50, 100])),
         st.just(("saveload",)),
         st.just(("reissue",)),
+        st.just(("repeat",)),
         st.tuples(st.just("set_plain"), st.sampled_from(["a", "b"]), url),
         st.tuples(st.just("churn"), st.sampled_from([30, 101, 130, 220]), st.sampled_from([[300], [300, 200], [7, 300], [3]]), url),
         st.sampled_from([("clear",), ("clear_name", "a"), ("clear_domain", "example.com"), ("clear_domain", "sub.example.com")]),
@@ -442,10 +452,39 @@ def unit_hyp(rec: Rec, n: int, offset: int, trailing_slash: bool) -> None:
     hyp.run(rec, cases(trailing_slash), body, n, seed_offset=offset)
 
 
+LIFE_OPS = [("set", {"name": "a", "expires_in": 5}, ("http", "example.com", "/")), ("set", {"name": "a", "max_age": "50"}, ("http", "example.com", "/")),
+            ("set", {"name": "a"}, ("http", "example.com", "/")), ("clear",), ("clear_name", "a"), ("saveload",), ("repeat",), ("tick", 6), ("tick", 60)]
+
+
+def unit_lifecycle(rec: Rec, shard: int, nshards: int, length: int) -> None:
+    """Every history of `length` steps over one cookie: set (Expires / Max-Age / session), the same header again, clear,
+    save+load, time passing."""
+    import itertools
+
+    rec.exhaustive = True
+    for i, ops in enumerate(itertools.product(LIFE_OPS, repeat=length)):
+        if i % nshards != shard:
+            continue
+        if ops[0][0] != "set":
+            continue
+        case = {"unsafe": False, "secure_origin": None, "ops": [list(o) for o in ops]}
+        try:
+            body(rec, case)
+        except Violation as v:
+            if rec.is_known(v.key):
+                rec.known_hits[v.key] += 1
+                continue
+            if v.key in rec.muted:
+                continue
+            rec.fail(v.key, v.msg, case)
+            rec.muted.add(v.key)
+
+
 def units(tier: str, seed: int) -> list[Unit]:
     n = 400 if tier == "quick" else 6000
     us = [Unit(f"hist{i}", unit_hyp, {"n": n, "offset": i, "trailing_slash": False}) for i in range(12)]
     us += [Unit(f"slash{i}", unit_hyp, {"n": n, "offset": 50 + i, "trailing_slash": True}) for i in range(4)]
+    us += [Unit(f"lifecycle{sh}", unit_lifecycle, {"shard": sh, "nshards": 4, "length": 4 if tier == "quick" else 5}) for sh in range(4)]
     return us
 
 
